@@ -1,0 +1,89 @@
+//go:build verif
+
+// Contracts for the deductive verifier in /verif (govc). Comment-only file.
+package export
+
+// ---------------------------------------------------------------- JSON (C17)
+//
+// Writers are modelled by a ghost emission log: loglen(b) pieces, piece i has logkind (0 WriteString, 1 WriteRune,
+// 2 WriteByte, 3 the \uXXXX escape written by fmt.Fprintf(w, "\\u%04x", r)), logint (rune/byte) and logstr (string).
+
+// jsonDecodes: the piece is a legal JSON string fragment (RFC 8259) that decodes to exactly the rune r.
+//@ predicate jsonDecodes(kind int, iv int, sv string, r rune) = \
+//@     (kind == 1 && iv == r && r >= 0x20 && r != '"' && r != '\\') \
+//@  || (kind == 3 && iv == r && r < 0x10000) \
+//@  || (kind == 0 && ((sv == "\\\"" && r == '"') || (sv == "\\\\" && r == '\\') || (sv == "\\t" && r == '\t') || (sv == "\\r" && r == '\r') \
+//@                 || (sv == "\\n" && r == '\n') || (sv == "\\b" && r == '\b') || (sv == "\\f" && r == '\f') || (sv == "\\/" && r == '/')))
+
+//@ func (j jsonExporter) String
+//@   property C17
+//@   safety C17
+//@   requires j.b != nil
+//@   ensures[ok] result == nil
+//@   ensures[length] loglen(j.b) == old(loglen(j.b)) + runecount(str) + 2
+//@   ensures[quotes] logkind(j.b, old(loglen(j.b))) == 0 && logstr(j.b, old(loglen(j.b))) == "\"" \
+//@        && logkind(j.b, loglen(j.b)-1) == 0 && logstr(j.b, loglen(j.b)-1) == "\""
+//@   ensures[runes] forall p in 0..runecount(str) :: jsonDecodes(logkind(j.b, old(loglen(j.b))+1+p), logint(j.b, old(loglen(j.b))+1+p), logstr(j.b, old(loglen(j.b))+1+p), runeat(str, p))
+//@   ensures[prefix] forall p in 0..old(loglen(j.b)) :: logkind(j.b, p) == old(logkind(j.b, p)) && logint(j.b, p) == old(logint(j.b, p)) && logstr(j.b, p) == old(logstr(j.b, p))
+//@   assigns log(j.b)
+//@   loop 1 invariant 0 <= rangeidx && rangeidx <= runecount(str) && loglen(j.b) == old(loglen(j.b)) + 1 + rangeidx
+//@   loop 1 invariant logkind(j.b, old(loglen(j.b))) == 0 && logstr(j.b, old(loglen(j.b))) == "\""
+//@   loop 1 invariant forall p in 0..rangeidx :: jsonDecodes(logkind(j.b, old(loglen(j.b))+1+p), logint(j.b, old(loglen(j.b))+1+p), logstr(j.b, old(loglen(j.b))+1+p), runeat(str, p))
+//@   loop 1 invariant forall p in 0..old(loglen(j.b)) :: logkind(j.b, p) == old(logkind(j.b, p)) && logint(j.b, p) == old(logint(j.b, p)) && logstr(j.b, p) == old(logstr(j.b, p))
+
+//@ predicate litPiece(b *bytes.Buffer, i int, s string) = logkind(b, i) == 0 && logstr(b, i) == s
+//@ predicate logPrefixKept(b *bytes.Buffer, n int) = forall p in 0..n :: logkind(b, p) == old(logkind(b, p)) && logint(b, p) == old(logint(b, p)) && logstr(b, p) == old(logstr(b, p))
+
+//@ func (j *jsonListExporter) Open
+//@   property C17
+//@   safety C17
+//@   requires j.j.b != nil
+//@   ensures result == nil && loglen(j.j.b) == old(loglen(j.j.b))+1 && litPiece(j.j.b, old(loglen(j.j.b)), "[") && j.first == old(j.first)
+
+//@ func (j *jsonListExporter) Close
+//@   property C17
+//@   safety C17
+//@   requires j.j.b != nil
+//@   ensures result == nil && loglen(j.j.b) == old(loglen(j.j.b))+1 && litPiece(j.j.b, old(loglen(j.j.b)), "]")
+
+//@ func (j *jsonMapExporter) Open
+//@   property C17
+//@   safety C17
+//@   requires j.j.b != nil
+//@   ensures result == nil && loglen(j.j.b) == old(loglen(j.j.b))+1 && litPiece(j.j.b, old(loglen(j.j.b)), "{") && j.first == old(j.first)
+
+//@ func (j *jsonMapExporter) Close
+//@   property C17
+//@   safety C17
+//@   requires j.j.b != nil
+//@   ensures result == nil && loglen(j.j.b) == old(loglen(j.j.b))+1 && litPiece(j.j.b, old(loglen(j.j.b)), "}")
+
+// The separator bookkeeping is checked at the point where the element itself is exported: by then the exporter
+// is no longer `first`, and exactly one "," was written iff it was not the first element.
+//@ func (j *jsonListExporter) Add
+//@   property C17
+//@   safety C17
+//@   requires j.j.b != nil
+//@   assert[separator] "Export[" !j.first && j.j.b == old(j.j.b) \
+//@       && (old(j.first) ==> loglen(j.j.b) == old(loglen(j.j.b))) \
+//@       && (!old(j.first) ==> loglen(j.j.b) == old(loglen(j.j.b))+1 && litPiece(j.j.b, old(loglen(j.j.b)), ","))
+
+//@ func (j *jsonMapExporter) Add
+//@   property C17
+//@   safety C17
+//@   requires j.j.b != nil
+//@   assert[separator-key-colon] "Export[" !j.first && j.j.b == old(j.j.b) \
+//@       && (old(j.first) ==> loglen(j.j.b) == old(loglen(j.j.b)) + runecount(key) + 3) \
+//@       && (!old(j.first) ==> loglen(j.j.b) == old(loglen(j.j.b)) + runecount(key) + 4 && litPiece(j.j.b, old(loglen(j.j.b)), ",")) \
+//@       && litPiece(j.j.b, loglen(j.j.b)-1, ":") && litPiece(j.j.b, loglen(j.j.b)-2, "\"") && litPiece(j.j.b, loglen(j.j.b)-runecount(key)-3, "\"") \
+//@       && (forall p in 0..runecount(key) :: jsonDecodes(logkind(j.j.b, loglen(j.j.b)-runecount(key)-2+p), logint(j.j.b, loglen(j.j.b)-runecount(key)-2+p), logstr(j.j.b, loglen(j.j.b)-runecount(key)-2+p), runeat(key, p)))
+
+//@ func (j jsonExporter) List
+//@   property C17
+//@   ensures typeis(result, *jsonListExporter) && fresh(unbox(result, *jsonListExporter)) \
+//@        && unbox(result, *jsonListExporter).first && unbox(result, *jsonListExporter).j.b == j.b
+
+//@ func (j jsonExporter) Map
+//@   property C17
+//@   ensures typeis(result, *jsonMapExporter) && fresh(unbox(result, *jsonMapExporter)) \
+//@        && unbox(result, *jsonMapExporter).first && unbox(result, *jsonMapExporter).j.b == j.b
